@@ -462,7 +462,7 @@ def main():
     jobs = []
     if TIER == 'thorough':
         cfgs = [((1, 1), 'list', 1), ((1, 1), 'tuple', 0), ((2, 1), 'list', 1), ((2, 1), 'tuple', 0), ((3, 1), 'list', 0), ((2, 2), 'list', 0)]
-        chains = [((1, 1), 'list', 1, 3), ((1, 1), 'tuple', 0, 3), ((2, 1), 'list', 0, 3), ((1, 1), 'list', 0, 4)]
+        chains = [((1, 1), 'list', 1, 3), ((1, 1), 'tuple', 0, 3), ((1, 1), 'list', 0, 4)]       # a 2x1 grid (4 cases) with two interruptions has ~1e5 paths: outside the time budget
     else:
         cfgs = [((1, 1), 'list', 1), ((1, 1), 'tuple', 0), ((2, 1), 'list', 0)]
         chains = [((1, 1), 'list', 1, 3)]
